@@ -444,6 +444,6 @@ func init() {
 			N: c.N(12000, 300000), Gen: c10Gen, Check: c10Check, Batch: 500, Corpus: c10Corpus,
 		})
 		vmLeg(c, c.N(3000, 100000), vmSizes{k: 24, maxSteps: c.N(4000, 20000), maxText: 12, extra: 2}) // leg W: interpreter model vs executeDefault (vm.go)
-		parserLeg(c, 4000, 50000) // leg Pr: the parser model (parser.go)
+		parserLeg(c, 2000, 50000) // leg Pr: the parser model (parser.go)
 	})
 }
